@@ -481,9 +481,9 @@ def e_tree(c):
 
 
 PARTS = [
-    Part("ctor", e_ctor, s_ctor(), quick=800, thorough=5000, shards=8, rule="non-trivial: noise given and (scalar/2-D input or n_pol=2)"),
-    Part("ctor_bad", e_bad, s_bad, quick=150, thorough=600, shards=2, rule="rejected shapes"),
-    Part("binop", e_binop, s_binop(), quick=2500, thorough=12000, shards=16, quick_shards=2, rule="non-trivial: noise on exactly one side, length-1 noisy operand, reflected list/str, mixed dtypes"),
-    Part("slices", e_slice, s_slice, quick=1200, thorough=8000, shards=8, rule="non-trivial: noisy operand or 2-pol slice down to length 1"),
-    Part("trees", e_tree, s_tree(), quick=900, thorough=6000, shards=16, quick_shards=2, rule="non-trivial: depth >= 3"),
+    Part("ctor", e_ctor, s_ctor(), quick=800, thorough=15000, shards=8, rule="non-trivial: noise given and (scalar/2-D input or n_pol=2)"),
+    Part("ctor_bad", e_bad, s_bad, quick=150, thorough=1800, shards=2, rule="rejected shapes"),
+    Part("binop", e_binop, s_binop(), quick=2500, thorough=36000, shards=16, quick_shards=2, rule="non-trivial: noise on exactly one side, length-1 noisy operand, reflected list/str, mixed dtypes"),
+    Part("slices", e_slice, s_slice, quick=1200, thorough=24000, shards=8, rule="non-trivial: noisy operand or 2-pol slice down to length 1"),
+    Part("trees", e_tree, s_tree(), quick=900, thorough=18000, shards=16, quick_shards=2, rule="non-trivial: depth >= 3"),
 ]
